@@ -273,7 +273,7 @@ func workerMain() {
 			opts := gosym.Options{Solver: j.Solver, TimeoutMS: int(j.Opts["timeout"]), Preempt: int(j.Opts["preempt"]),
 				MaxPaths: int(j.Opts["maxpaths"]), MaxSteps: int(j.Opts["maxsteps"]), MaxSeconds: float64(j.Opts["maxseconds"]),
 				Witnesses: int(j.Opts["witnesses"]), Concrete: j.Concrete, ForcedModel: j.ForcedModel, ForcedSchedule: j.ForcedSchedule,
-				KnownFindings: map[string]bool{}, CrossSolvers: j.Cross, Verbose: int(j.Opts["verbose"]), DelayBound: j.Opts["delaybound"] == 1}
+				KnownFindings: map[string]bool{}, CrossSolvers: j.Cross, Verbose: int(j.Opts["verbose"]), DelayBound: j.Opts["delaybound"] == 1, GlobalYield: j.Opts["globalyield"] == 1}
 			for _, k := range j.Known {
 				opts.KnownFindings[k] = true
 			}
